@@ -268,10 +268,10 @@ def native_cpp(k, tier, kdir, sanitize=False):
         f.write('#include <stdio.h>\nextern "C" {\n')
         for e in entries:
             f.write('void %s(void);\n' % e)
-        f.write('}\nint main() {\n')
+        f.write('void vf_replay_end(void);\n}\n#include <stdlib.h>\n#include <string.h>\nint main() {\n  const char* only = getenv("VF_ENTRY");\n')
         for e in entries:
-            f.write('  try { %s(); } catch (...) { printf("A uncaught exception escapes %s 0\\n"); printf("END exc=1\\n"); return 0; }\n' % (e, e))
-        f.write('  printf("END exc=0\\n"); return 0; }\n')
+            f.write('  if (!only || !strcmp(only, "%s")) { try { %s(); } catch (...) { printf("A uncaught exception escapes %s 0\\n"); printf("END exc=1\\n"); return 0; } }\n' % (e, e, e))
+        f.write('  vf_replay_end();\n  printf("END exc=0\\n"); return 0; }\n')
     srcs = [(os.path.join(VERIF, 'harness', k['harness']), 'harness.o', extra + ['-DVF_NATIVE=1']),
             (main_cpp, 'native_main.o', []),
             (os.path.join(VERIF, 'vf', 'rt_native.c'), 'rt_native.o', ['-x', 'c++'])]
@@ -331,10 +331,13 @@ def repo_archive():
     return a
 
 
-def run_native(exe, stream=None, replay=None, timeout=60):
+def run_native(exe, stream=None, replay=None, timeout=60, entry=None):
     env = dict(os.environ)
     env.pop('VF_REPLAY', None)
     env.pop('VF_STREAM', None)
+    env.pop('VF_ENTRY', None)
+    if entry is not None:
+        env['VF_ENTRY'] = entry
     if stream is not None:
         env['VF_STREAM'] = str(stream)
     if replay is not None:
